@@ -42,13 +42,19 @@ impl Spec {
             0 => x.iter().zip(&self.target).enumerate().map(|(j, (v, c))| ((j + 1) as f64) * (v - c).abs().floor()).sum(),
             1 => x.iter().map(|v| v.floor() * v.floor()).sum(),
             2 => 7.0,
-            _ => -x.iter().map(|v| v.floor()).sum::<f64>(),
+            3 => -x.iter().map(|v| v.floor()).sum::<f64>(),
+            // real-valued families for the decimal boxes (the in-bounds check needs no exactness of f; fitness is
+            // compared by re-evaluating the same deterministic function)
+            4 => x.iter().zip(&self.target).map(|(v, c)| if *c < 0.0 { -*v } else { *v }).sum(), // linear: optimum in a corner
+            5 => -x.iter().zip(&self.target).map(|(v, c)| (v - c).abs()).sum::<f64>(),          // two basins: both bounds are local optima
+            _ => x.iter().zip(&self.target).map(|(v, c)| (v - c).abs()).sum(),                   // |x - c|, c on a bound or outside the box
         }
     }
     fn penalty_of(&self, x: &Array1<f64>) -> f64 {
         match self.pen {
             0 => 0.0,
-            _ => 5.0 * (x.iter().sum::<f64>() - self.t).max(0.0).floor(),
+            1 => 5.0 * (x.iter().sum::<f64>() - self.t).max(0.0).floor(),
+            _ => 1000.0 * (x.iter().sum::<f64>() - self.t).max(0.0),
         }
     }
 }
@@ -72,8 +78,9 @@ impl Problem for SoProblem {
 struct MoProblem(Spec);
 impl MoProblem {
     fn objs(&self, x: &Array1<f64>) -> Vec<f64> {
-        let f1: f64 = x.iter().zip(&self.0.target).map(|(v, c)| (v - c).abs().floor()).sum();
-        let f2: f64 = x.iter().zip(&self.0.target2).map(|(v, c)| (v - c).abs().floor()).sum();
+        let fl = |d: f64| if self.0.kind >= 4 { d } else { d.floor() };
+        let f1: f64 = x.iter().zip(&self.0.target).map(|(v, c)| fl((v - c).abs())).sum();
+        let f2: f64 = x.iter().zip(&self.0.target2).map(|(v, c)| fl((v - c).abs())).sum();
         if self.0.kind % 2 == 0 {
             vec![f1, f2]
         } else {
@@ -88,7 +95,8 @@ impl MultiObjectiveProblem for MoProblem {
     fn penalties(&self, x: &Array1<f64>) -> Vec<f64> {
         match self.0.pen {
             0 => vec![],
-            _ => vec![self.0.penalty_of(x), (x[0] - self.0.t).max(0.0).floor()],
+            1 => vec![self.0.penalty_of(x), (x[0] - self.0.t).max(0.0).floor()],
+            _ => vec![self.0.penalty_of(x), (x[0] - self.0.t).max(0.0)],
         }
     }
     fn dim(&self) -> usize {
@@ -377,11 +385,77 @@ fn gen_spec(rng: &mut Rng, shape: u8, dim: Option<usize>) -> Spec {
     Spec { lo, hi, kind: rng.below(4) as u8, target, target2, pen, t: t.floor() }
 }
 
+/// Intervals whose end points are decimal fractions (not dyadic), of very different magnitudes: sums and
+/// differences of the bounds are inexact in binary, so an unclamped `lo + hi - x`, `lo + r * (hi - lo)` or
+/// `mid +- half` can land one ulp outside the box.
+const DECIMAL: &[(f64, f64)] = &[
+    (0.1, 0.3),
+    (0.7, 1.9),
+    (-0.3, 0.1),
+    (-1.9, -0.7),
+    (0.001, 0.003),
+    (-0.007, 0.001),
+    (0.1, 0.7),
+    (1.1, 2.3),
+    (-2.3, -1.1),
+    (0.2, 0.6),
+    (1e15 + 0.3, 1e15 + 0.7),
+    (-1e15 - 0.7, 1e9 + 0.1),
+    (1e-300, 3e-300),
+    (-3e-300, 7e-300),
+    (1e-9, 1.0),
+    (0.3, 1e6 + 0.1),
+    (123.456, 123.457),
+    (-0.1, 0.2),
+];
+
+/// does the reflection `lo + hi - x` leave the box at one of its ends, in f64?
+fn reflection_inexact(l: f64, h: f64) -> bool {
+    (l + h) - l > h || (l + h) - h < l
+}
+
+/// a box of decimal intervals with an objective whose optimum lies on a bound or just outside the box
+fn gen_decimal_spec(rng: &mut Rng, dim: usize, kind: u8, force_inexact: bool) -> Spec {
+    let mut lo = vec![];
+    let mut hi = vec![];
+    for _ in 0..dim {
+        let (l, h) = loop {
+            // a listed family, or a random pair of thousandths
+            let c = if rng.chance(2, 3) {
+                *rng.pick(DECIMAL)
+            } else {
+                let l = rng.range(-3000, 3000) as f64 / 1000.0;
+                (l, l + rng.range(1, 4000) as f64 / 1000.0)
+            };
+            if !force_inexact || reflection_inexact(c.0, c.1) {
+                break c;
+            }
+        };
+        lo.push(l);
+        hi.push(h);
+    }
+    let target: Vec<f64> = (0..dim)
+        .map(|j| {
+            let (l, h) = (lo[j], hi[j]);
+            match kind {
+                4 => if rng.chance(1, 2) { -1.0 } else { 1.0 },               // sign of the slope
+                5 => l + (h - l) * ([0.4, 0.6, 0.25, 0.75, 0.5][rng.usize(5)]), // interior: the far bound is the better basin
+                _ => match rng.below(4) { 0 => l, 1 => h, 2 => l - (h - l) * 0.5, _ => h + (h - l) * 0.5 },
+            }
+        })
+        .collect();
+    let target2: Vec<f64> = (0..dim).map(|j| if rng.chance(1, 2) { lo[j] } else { hi[j] + (hi[j] - lo[j]) }).collect();
+    let pen = if rng.chance(1, 4) { 2 } else { 0 };
+    let t = lo.iter().zip(&hi).map(|(l, h)| l + (h - l) * 0.9).sum::<f64>();
+    Spec { lo, hi, kind, target, target2, pen, t }
+}
+
 fn nontrivial(s: &Spec) -> bool {
     let odd_bounds = s.lo.iter().zip(&s.hi).any(|(l, h)| l == h || *l != -*h);
     let boundary_opt = match s.kind {
         0 => s.target.iter().zip(s.lo.iter().zip(&s.hi)).any(|(c, (l, h))| c <= l || c >= h),
-        3 => true,
+        3 | 4 | 5 => true,
+        6 => s.target.iter().zip(s.lo.iter().zip(&s.hi)).any(|(c, (l, h))| c <= l || c >= h),
         _ => false,
     };
     odd_bounds && boundary_opt
@@ -408,7 +482,7 @@ fn main() {
     let mut rep = Report::new(
         "C34",
         "(a) shared decision functions (dominance, non-dominated sort, archive insert, child seed, clamp) on generated integer-valued populations, compared exactly with the Lean model; \
-         (b) every public solver (29 structs, 35 configurations) x populations {5,8,12,16,30,33,50,64} x iteration counts {2..64} x generated box problems (dim 1-6; asymmetric, tiny and degenerate lo = hi intervals; penalties) x seeds, \
+         (b) every public solver (29 structs, 35 configurations) x populations {5,8,12,16,30,33,50,64} x iteration counts {2..64} x generated box problems (dim 1-6; asymmetric, tiny and degenerate lo = hi intervals, and decimal-fraction bounds of magnitudes 1e-300..1e15 whose sums are inexact in binary, with linear / two-basin / |x-c| objectives whose optimum lies on a bound or outside; penalties) x seeds, \
          each run under rayon pools of 1, 2, 8 and 8 (again) threads and compared bit-for-bit, result judged by the Lean predicates; quick samples boxes/iterations per (solver, population) pair, thorough runs the full product; non-trivial = solver run whose box is asymmetric or degenerate and whose optimum lies on the boundary; distinct = distinct job line",
         &args.replays,
         args.seed,
@@ -539,6 +613,34 @@ fn main() {
                         let iters = if k % 2 == 0 { ITERS[2 + rng.usize(2)] } else { ITERS[rng.usize(2)] + rng.usize(5) };
                         jobs.push(Job { solver: s.to_string(), pop, iters, seed: rng.next_u64() >> 1, spec });
                     }
+                }
+            }
+        }
+    }
+    // Rounding-sized margins: boxes with decimal-fraction bounds, mostly 1-D and 2-D (in more dimensions a later
+    // clamped move tends to overwrite a stray coordinate), objectives with the optimum on a bound or outside.
+    // Every solver, populations on both sides of 12 (and 50 in thorough), every run long enough to reach the bounds.
+    if args.replay.is_none() {
+        let pops: &[usize] = if args.thorough() { &[5, 10, 16, 30, 50] } else { &[10, 30] };
+        for s in SO_SOLVERS.iter().chain(MO_SOLVERS.iter()) {
+            for &pop in pops {
+                // (dimension, objective family, reflection forced inexact)
+                let plan: Vec<(usize, u8, bool)> = if args.thorough() {
+                    let mut v = vec![];
+                    for dim in 1..=3usize {
+                        for kind in 4..=6u8 {
+                            for rep_ in 0..(if dim == 1 { 6 } else { 3 }) {
+                                v.push((dim, kind, rep_ % 2 == 0));
+                            }
+                        }
+                    }
+                    v
+                } else {
+                    vec![(1, 5, true), (1, 5, true), (1, 4, false), (1, 6, true), (2, 5, true), (2, 4 + rng.below(3) as u8, false), (3, 5, false)]
+                };
+                for (dim, kind, force) in plan {
+                    let spec = gen_decimal_spec(&mut rng, dim, kind, force);
+                    jobs.push(Job { solver: s.to_string(), pop, iters: 12 + rng.usize(30), seed: rng.next_u64() >> 1, spec });
                 }
             }
         }
